@@ -8,7 +8,7 @@ wt=/tmp/wt-regress-$$
 git -C /repo worktree add -q --detach "$wt" HEAD || exit 3
 trap 'git -C /repo worktree remove --force "$wt" >/dev/null 2>&1' EXIT
 ids="${@:-$(ls "$here/seeded" | grep -E '^C[0-9]+-(r2-)?m[0-9]+$')}"
-out="$here/seeded/RESULTS.md"
+out="$here/seeded/RESULTS.md"; [ $# -gt 0 ] && out="$here/seeded/RESULTS.partial.md"
 {
 echo "# Seeded defects against /repo $(git -C /repo rev-parse --short HEAD) - $(date -u +%Y-%m-%dT%H:%MZ)"
 echo
